@@ -18,6 +18,100 @@ var _ types.Object
 var _ = sort.Strings
 var _ = strings.TrimSpace
 
+// c08site is one occurrence of an effect (a call of a named function) in a function f, possibly inside
+// a helper: Chain[0] is the call in f, Chain[len-1] the call of the named function itself. A helper
+// counts only when it performs the effect exactly once, on every returning path, and hands the
+// effect's error on (returns the call, its error variable, or returns only after it succeeded) — so
+// "the helper succeeded" means "the effect succeeded".
+type c08site struct {
+	Chain []*core.CallSite
+}
+
+func (s c08site) Outer() *core.CallSite { return s.Chain[0] }
+func (s c08site) Inner() *core.CallSite { return s.Chain[len(s.Chain)-1] }
+
+// c08sitesOf lists the occurrences of calls to `name` in f, looking into module helpers up to depth.
+func c08sitesOf(f *core.FuncInfo, name string, depth int) []c08site {
+	var out []c08site
+	for _, cs := range f.Calls() {
+		if cs.InGo || cs.InDefer {
+			continue
+		}
+		if cs.Name == name {
+			out = append(out, c08site{[]*core.CallSite{cs}})
+			continue
+		}
+		if depth <= 0 {
+			continue
+		}
+		fn, ok := cs.Callee.(*types.Func)
+		if !ok {
+			continue
+		}
+		g := f.P.FuncOf(fn)
+		if g == nil || g == f {
+			continue
+		}
+		inner := c08sitesOf(g, name, depth-1)
+		if len(inner) != 1 {
+			continue
+		}
+		in := inner[0].Outer()
+		if _, skip := (core.PathQuery{F: g, From: g.Entry(), Avoid: core.PointSet(in.Pt), TargetExit: true}).Find(); skip {
+			continue
+		}
+		if g.CanReach(in.Pt, in.Pt) {
+			continue
+		}
+		ev := errVarOfCall(g, in.Call)
+		hands := true
+		for _, rp := range g.ReturnPoints() {
+			r := rp.Node().(*ast.ReturnStmt)
+			if len(r.Results) == 0 {
+				hands = false
+				break
+			}
+			last := ast.Unparen(r.Results[len(r.Results)-1])
+			switch {
+			case last == ast.Expr(in.Call):
+			case ev != nil && varOf(g, last) == ev:
+			case afterSuccess(g, in, rp):
+			default:
+				hands = false
+			}
+		}
+		if !hands {
+			continue
+		}
+		out = append(out, c08site{append([]*core.CallSite{cs}, inner[0].Chain...)})
+	}
+	return out
+}
+
+// c08arg resolves argument i of the innermost call of a site to an expression of some function on the
+// chain: a helper's parameter passed on unchanged is replaced by the caller's argument.
+func c08arg(s c08site, i int) (*core.FuncInfo, ast.Expr) {
+	k := len(s.Chain) - 1
+	if i >= len(s.Chain[k].Call.Args) {
+		return nil, nil
+	}
+	e := s.Chain[k].Call.Args[i]
+	for k > 0 {
+		g := s.Chain[k].F
+		v := varOf(g, e)
+		if v == nil || len(assignsToVar(g, v)) != 0 {
+			break
+		}
+		pi := c24paramIndex(g, v)
+		if pi < 0 || pi >= len(s.Chain[k-1].Call.Args) {
+			break
+		}
+		k--
+		e = s.Chain[k].Call.Args[pi]
+	}
+	return s.Chain[k].F, e
+}
+
 // c08Roots: what a restarted instance replays are the roots it reads back from the epoch database.
 // Restart invisibility therefore needs the root registry to return exactly what was registered
 // (property C33): its obligations are shared here.
